@@ -52,7 +52,7 @@ func genPrincipals(r *c.Rng, max int) []string {
 func genSign(r *c.Rng) *Case {
 	k := &Case{Op: "sign"}
 	k.CA = c.Pick(r, []string{"both", "both", "both", "both", "both", "bothnodb", "bothnodb", "bothnodb", "bothnodb", "none", "user", "user", "host", "host", "fed"})
-	k.Prov = c.Pick(r, []string{"jwk", "jwk", "jwk", "x5c", "x5c", "oidc", "nebula", "k8ssa"})
+	k.Prov = c.Pick(r, []string{"jwk", "jwk", "jwk", "x5c", "x5c", "oidc", "nebula", "k8ssa", "awsdcs", "aws"})
 	k.Sub = c.Pick(r, subPool)
 	if r.Chance(1, 60) {
 		k.Sub = ""
@@ -164,6 +164,26 @@ func genSign(r *c.Rng) *Case {
 		base = []string{k.Sub}
 	}
 	k.Req.Principals = base
+	if k.Prov == "aws" || k.Prov == "awsdcs" {
+		own := awsPrincipals()
+		k.Req.CertType = c.Pick(r, []string{"", "", "host", "host", "user"})
+		switch r.Intn(8) {
+		case 0, 1: // none: the validated names
+			k.Req.Principals = nil
+		case 2:
+			k.Req.Principals = own
+		case 3:
+			k.Req.Principals = own[:1]
+		case 4:
+			k.Req.Principals = []string{flipCase(own[1])}
+		case 5: // a name of its own choosing
+			k.Req.Principals = []string{c.Pick(r, []string{"db.internal.example.com", "10.0.0.6", "root"})}
+		case 6:
+			k.Req.Principals = append(append([]string{}, own...), "db.internal.example.com")
+		default:
+			k.Req.Principals = []string{own[0], own[0], own[1]}
+		}
+	}
 	if k.Prov == "k8ssa" {
 		k.Sub = c.Pick(r, []string{"builder", "deployer"})
 		if r.Chance(3, 4) { // the request template needs type, key id and principals
@@ -220,7 +240,7 @@ func genPop(r *c.Rng) *Case {
 	k.Perms = c.Pick(r, []string{"crit", "crit", "ext", "both", "both", "none", "empty"})
 	// usually exactly one deviation from the valid request
 	for i := c.Pick(r, []int{0, 0, 0, 1, 1, 1, 1, 2, 3}); i > 0; i-- {
-		switch r.Intn(17) {
+		switch r.Intn(19) {
 		case 0:
 			k.Cert.CertType = "user"
 		case 1:
@@ -241,6 +261,8 @@ func genPop(r *c.Rng) *Case {
 			k.NoSub = true
 		case 9:
 			k.Revoked = k.CA == "both"
+		case 16:
+			k.RevAPI = k.CA == "both" && k.Op != "revoke"
 		case 10:
 			k.DisRen = true
 		case 11:
@@ -330,6 +352,14 @@ func corner() []*Case {
 		{Op: "sign", CA: "nosshcfg", Prov: "jwk", Sub: "alice", AddUser: true, Key: "ed"},
 		{Op: "sign", CA: "nosshcfg", Prov: "jwk", Sub: "alice", Tok: Opts{CertType: "host"}, AddUser: true, Key: "ed"},
 		{Op: "sign", CA: "nosshcfg", Prov: "jwk", Sub: "alice", Key: "ed"},
+		// AWS instance identity (provisioners converted from their admin-database form)
+		{Op: "sign", CA: "both", Prov: "awsdcs", Sub: "i", Key: "ed"},
+		{Op: "sign", CA: "both", Prov: "awsdcs", Sub: "i", Req: Opts{Principals: []string{"10.0.0.5"}}, Key: "ed"},
+		{Op: "sign", CA: "both", Prov: "awsdcs", Sub: "i", Req: Opts{Principals: []string{"db.internal.example.com"}}, Key: "ed"},
+		{Op: "sign", CA: "both", Prov: "awsdcs", Sub: "i", Req: Opts{Principals: []string{"10.0.0.5", "root"}}, Key: "ed"},
+		{Op: "sign", CA: "both", Prov: "awsdcs", Sub: "i", Req: Opts{CertType: "user"}, Key: "ed"},
+		{Op: "sign", CA: "both", Prov: "aws", Sub: "i", Req: Opts{Principals: []string{"db.internal.example.com"}}, Key: "ed"},
+		{Op: "sign", CA: "both", Prov: "aws", Sub: "i", Key: "ed"},
 		// K8sSA: everything from the request
 		{Op: "sign", CA: "both", Prov: "k8ssa", Sub: "builder", Req: Opts{CertType: "host", KeyID: "any", Principals: []string{"any.example.com"}}, Key: "ed"},
 		{Op: "sign", CA: "both", Prov: "k8ssa", Sub: "builder", Req: Opts{CertType: "user", KeyID: "root", Principals: []string{"root"}}, Key: "ed"},
@@ -356,6 +386,10 @@ func corner() []*Case {
 		pop("renew", func(k *Case) { k.TokKey = "other" }),
 		pop("renew", func(k *Case) { k.Revoked = true }),
 		pop("rekey", func(k *Case) { k.Revoked = true }),
+		// revocation through the real POST /ssh/revoke handler, then renew / rekey
+		pop("renew", func(k *Case) { k.RevAPI = true }),
+		pop("rekey", func(k *Case) { k.RevAPI = true }),
+		pop("renew", func(k *Case) { k.RevAPI, k.SignBy = true, "foreign" }),
 		pop("renew", func(k *Case) { k.Window = "expired" }),
 		pop("rekey", func(k *Case) { k.Window = "expired" }),
 		pop("renew", func(k *Case) { k.Window = "zero" }),
